@@ -743,6 +743,140 @@ func queueStress(n int, seed int64) {
 	}
 }
 
+// ---------- the message store: a file whose content is damaged UNDER the encryption ----------
+
+// storeDamage writes a message through the store, replaces the file by one whose decrypted content is not an LZ4 frame
+// (valid header, nonce and authentication tag) and reads it: Get has to fail, and the goroutine that decrypts for it has
+// to end (it is found by the goroutine check at the very end otherwise).
+func storeDamage(dir string) {
+	pass := []byte("c19-store-pass")
+	st, err := store.NewOnDiskStore(filepath.Join(dir, "c19store"), pass)
+	if err != nil {
+		note("store phase skipped: %v", err)
+		return
+	}
+	id := imap.NewInternalMessageID()
+	if err := st.Set(id, strings.NewReader(strings.Repeat("some message text\r\n", 4000))); err != nil {
+		note("store phase skipped: %v", err)
+		return
+	}
+	path := filepath.Join(dir, "c19store", id.String())
+	raw, err := os.ReadFile(path)
+	gcm, err2 := store.NewCipher(pass)
+	const hdr = len("GLUON-CACHE") + 4
+	if err != nil || err2 != nil || len(raw) < hdr+12+32 {
+		note("store phase skipped: %v %v", err, err2)
+		return
+	}
+	nonce := raw[hdr : hdr+gcm.NonceSize()]
+	plain, err := gcm.Open(nil, nonce, raw[hdr+gcm.NonceSize():], nil)
+	if err != nil {
+		note("store phase skipped (file has more than one block?): %v", err)
+		return
+	}
+	copy(plain[:4], []byte{0xde, 0xad, 0xbe, 0xef}) // no LZ4 frame starts like this
+	damaged := append(append(append([]byte{}, raw[:hdr]...), nonce...), gcm.Seal(nil, nonce, plain, nil)...)
+	if err := os.WriteFile(path, damaged, 0o600); err != nil {
+		note("store phase skipped: %v", err)
+		return
+	}
+	b, gerr := st.Get(id)
+	if gerr == nil {
+		fail("store", "store Get of a file whose decrypted content is not an LZ4 frame returned no error", fmt.Sprintf("%d bytes", len(b)))
+	}
+	stat("store-damaged-get")
+	_ = st.Close()
+}
+
+// ---------- a session that keeps deleted messages in its view, one that keeps examining, some that come and go ----------
+
+// holder selects mb1 and never looks at the connection again: the messages the connector deletes afterwards stay in its
+// view, so they stay in the user's pool of messages marked for deletion and every ending session (user.removeState) asks
+// every other state whether it still holds them (State.HasMessage).
+func holder(w *world) *parked {
+	p, err := park(w, "user", "authenticated")
+	if err != nil {
+		note("holder: %v", err)
+		return nil
+	}
+	if r, err := p.c.Cmd("SELECT mb1"); err != nil || r.Status != "OK" {
+		note("holder: select: %v %s", err, r.Text)
+	}
+	p.state = "selected"
+	return p
+}
+
+// examiner: EXAMINE / SELECT of changing mailboxes, as fast as it goes (every one replaces the session's snapshot)
+func examiner(w *world, seed int64) {
+	defer w.wg.Done()
+	rng := rand.New(rand.NewSource(seed))
+	for {
+		x := &sess{w: w, id: 900, rng: rng, user: "user"}
+		c, err := imapc.DialTimeout(w.s.Addr, 2*time.Second)
+		if err != nil {
+			select {
+			case <-w.stop:
+				return
+			default:
+				time.Sleep(5 * time.Millisecond)
+				continue
+			}
+		}
+		x.c, x.state = c, "greeted"
+		if r, ok := x.cmd("LOGIN user pass"); ok && r.Status == "OK" {
+			x.state = "authenticated"
+			for i := 0; i < 400; i++ {
+				select {
+				case <-w.stop:
+					c.Close()
+					return
+				default:
+				}
+				verb := "EXAMINE"
+				if rng.Intn(4) == 0 {
+					verb = "SELECT"
+				}
+				if _, ok := x.cmd(verb + " " + w.boxes[rng.Intn(len(w.boxes))]); !ok {
+					break
+				}
+			}
+		}
+		c.Close()
+		select {
+		case <-w.stop:
+			return
+		default:
+		}
+	}
+}
+
+// flapper: log in, log out (or just hang up), again and again: every end runs user.removeState
+func flapper(w *world, seed int64) {
+	defer w.wg.Done()
+	rng := rand.New(rand.NewSource(seed))
+	for {
+		select {
+		case <-w.stop:
+			return
+		default:
+		}
+		c, err := imapc.DialTimeout(w.s.Addr, 2*time.Second)
+		if err != nil {
+			time.Sleep(5 * time.Millisecond)
+			continue
+		}
+		x := &sess{w: w, id: 901, rng: rng, user: "user", c: c, state: "greeted"}
+		if r, ok := x.cmd("LOGIN user pass"); ok && r.Status == "OK" {
+			x.state = "authenticated"
+			if rng.Intn(2) == 0 {
+				x.cmd("LOGOUT")
+			}
+		}
+		c.Close()
+		stat("flaps")
+	}
+}
+
 // ---------- parked connections: one per protocol state, left OPEN by the client until the leak check is over ----------
 
 type parked struct {
@@ -875,6 +1009,7 @@ func main() {
 	logrus.AddHook(logHook{})
 	nQueues := flag.Int("queues", 0, "QueuedChannel stress: number of queues to create and close (0 = skip)")
 	queuesOnly := flag.Bool("queues-only", false, "run only the QueuedChannel stress")
+	cancelServe := flag.Int("cancel-serve", -1, "1: cancel the Serve context before Close, 0: do not, -1: by the seed")
 	debugLog := flag.Bool("debuglog", false, "run gluon with logrus at debug level (formatted, output discarded)")
 	seed := flag.Int64("seed", 1, "seed")
 	flag.StringVar(&out, "out", ".", "output dir")
@@ -900,8 +1035,14 @@ func main() {
 	lateDial := rng.Intn(2) == 0
 	removeFiles := rng.Intn(3) == 0
 	closeWhilePushing := rng.Intn(4) != 0
+	cancelFirst := false
+	if *cancelServe >= 0 {
+		cancelFirst = *cancelServe == 1
+	} else {
+		cancelFirst = rng.Intn(3) == 0
+	}
 	rep.Scenario = map[string]interface{}{"seed": *seed, "sessions_user0": *nSess, "sessions_user1": 3, "run_ms": *runMs,
-		"dial_between_close_and_listener_close": lateDial, "remove_user1_with_files": removeFiles, "connector_pushing_during_close": closeWhilePushing,
+		"dial_between_close_and_listener_close": lateDial, "remove_user1_with_files": removeFiles, "connector_pushing_during_close": closeWhilePushing, "serve_context_cancelled_before_close": cancelFirst,
 		"teardown": "RemoveUser(user1) racing with its sessions, then Close racing with the sessions of user0 and the connector updates; per user one connection parked in each of: not-authenticated, mid-literal (LOGIN {n}), authenticated, selected, IDLE, whose client sockets stay open until the goroutine check is over"}
 	defer writeReport()
 
@@ -913,6 +1054,20 @@ func main() {
 		fmt.Fprintln(os.Stderr, "start:", err)
 		os.Exit(3)
 	}
+	// an embedder reads the server's error channel until it is closed (errors nobody takes would keep the channel's queue
+	// goroutine alive after Close)
+	errDrained := make(chan struct{})
+	go func() {
+		n := 0
+		for range s.S.GetErrorCh() {
+			n++
+		}
+		repMu.Lock()
+		rep.Stats["serve-errors-reported"] += n
+		repMu.Unlock()
+		close(errDrained)
+	}()
+	storeDamage(s.Dir)
 	w := &world{s: s, stop: make(chan struct{}), boxes: []string{"INBOX", "mb1", "mb2", "mb3"}}
 	// set-up (sequential)
 	for _, u := range []string{"user", "other"} {
@@ -951,6 +1106,22 @@ func main() {
 	pushStop := w.stop
 	w.wg.Add(1)
 	go pusher(w, conn0, *seed*7+1, mboxIDs)
+	// a session that keeps two connector-deleted messages of mb1 in its view (a lasting pool of messages marked for
+	// deletion), one that keeps replacing its snapshot with EXAMINE / SELECT, two that log in and out all the time
+	hold := holder(w)
+	if hold != nil && len(mboxIDs) > 1 {
+		n := 0
+		for _, id := range conn0.MessageIDsIn(mboxIDs[1]) {
+			if n < 2 && pushOrStop(conn0, imap.NewMessagesDeleted(id), w.stop) {
+				n++
+			}
+		}
+		stat(fmt.Sprintf("pooled-deletions:%d", n))
+	}
+	w.wg.Add(3)
+	go examiner(w, *seed*13+5)
+	go flapper(w, *seed*17+1)
+	go flapper(w, *seed*17+2)
 	time.Sleep(time.Duration(*runMs) * time.Millisecond)
 
 	// teardown, racing with everything above. First: one connection per protocol state (not authenticated, in the middle
@@ -974,6 +1145,11 @@ func main() {
 	}
 	parkedA := parkAll(w, "user")
 	atomic.StoreInt32(&w.closing, 1)
+	if cancelFirst {
+		// "Serve stops serving when the context is canceled": the caller cancels first and closes afterwards
+		s.CancelServe()
+		time.Sleep(time.Duration(50+rng.Intn(300)) * time.Millisecond)
+	}
 	_, ok = withWatchdog("Close", func() error { return s.S.Close(context.Background()) })
 	if !ok {
 		return
@@ -989,6 +1165,11 @@ func main() {
 			rep.Scenario["late_dial_read"] = fmt.Sprintf("%d bytes, err=%v", n, rerr)
 			c.Close()
 		}
+	}
+	select {
+	case <-errDrained:
+	case <-time.After(watchdog):
+		fail("hang", "the server's error channel was not closed within 60 s after Close returned", gluonStacks(true))
 	}
 	close(w.stop)
 	s.Listener.Close()
@@ -1033,6 +1214,9 @@ func main() {
 		}
 	}
 	// only now do the parked clients look at their sockets and let go of them
+	if hold != nil {
+		parkedA = append(parkedA, hold)
+	}
 	for _, p := range append(parkedA, parkedB...) {
 		if p.serverClosed() {
 			stat("parked-closed-by-server:" + p.state)
